@@ -5,20 +5,256 @@ import (
 	"fmt"
 	"go/ast"
 	"go/printer"
+	"go/scanner"
 	"go/token"
+	"go/types"
+	"reflect"
+	"strings"
+
+	"golang.org/x/tools/go/packages"
 
 	"j5verif/checker/core"
 )
 
+// canon renders a syntax tree as a layout-independent token sequence, without
+// comments, with every identifier that is declared inside the function
+// (parameters, results, locals, labels) replaced by a positional name — so
+// that renaming a local, re-wrapping a line or adding a blank line in the copy
+// (or upstream) is not a difference — and with calls of straight-line helpers
+// of the same package inlined: `x = h(a, b)` where h's body is a list of simple
+// statements ending in `return e` is compared as that list with h's parameters
+// replaced by the arguments and `x = e` for the return. Identifiers declared
+// elsewhere (package functions, imported names, builtins, fields) keep their
+// names.
+func canon(pk *packages.Package, fd *ast.FuncDecl, n ast.Node) string {
+	info := pk.TypesInfo
+	// ---- inline straight-line helpers (temporarily, restored before returning)
+	alias := map[*ast.Ident]ast.Expr{}      // use of a helper parameter (in an inlined copy of the helper's body) → argument
+	origOf := map[*ast.Ident]*ast.Ident{} // identifier of an inlined copy → the identifier it was copied from
+	type saved struct {
+		list *[]ast.Stmt
+		orig []ast.Stmt
+	}
+	var undo []saved
+	inlinable := func(st ast.Stmt) []ast.Stmt {
+		as, ok := st.(*ast.AssignStmt)
+		if !ok || len(as.Lhs) != 1 || len(as.Rhs) != 1 || (as.Tok != token.ASSIGN && as.Tok != token.DEFINE) {
+			return nil
+		}
+		call, ok := core.Unparen(as.Rhs[0]).(*ast.CallExpr)
+		if !ok {
+			return nil
+		}
+		fn := core.CalleeFunc(info, call)
+		if fn == nil || fn.Pkg() != pk.Types || fn.Type().(*types.Signature).Recv() != nil {
+			return nil
+		}
+		hd := core.DeclOf(pk, fn.Origin())
+		if hd == nil || hd.Body == nil || hd == fd || len(hd.Body.List) == 0 {
+			return nil
+		}
+		var params []types.Object
+		for _, f := range hd.Type.Params.List {
+			if len(f.Names) == 0 {
+				return nil
+			}
+			for _, nm := range f.Names {
+				params = append(params, info.Defs[nm])
+			}
+		}
+		if len(params) != len(call.Args) {
+			return nil
+		}
+		for _, a := range call.Args {
+			switch x := core.Unparen(a).(type) {
+			case *ast.Ident, *ast.BasicLit:
+			default:
+				if tv, ok := info.Types[x]; !ok || tv.Value == nil {
+					return nil
+				}
+			}
+		}
+		last := len(hd.Body.List) - 1
+		ret, ok := hd.Body.List[last].(*ast.ReturnStmt)
+		if !ok || len(ret.Results) != 1 {
+			return nil
+		}
+		for _, hs := range hd.Body.List[:last] {
+			switch hs.(type) {
+			case *ast.AssignStmt, *ast.ExprStmt, *ast.IncDecStmt:
+			default:
+				return nil
+			}
+		}
+		argOf := map[types.Object]ast.Expr{}
+		for i, p := range params {
+			argOf[p] = core.Unparen(call.Args[i])
+		}
+		// a private copy of the helper's body for this call site
+		copyOf := func(n ast.Node) ast.Node {
+			return cloneAST(n, func(orig, cp *ast.Ident) {
+				origOf[cp] = orig
+				o := info.Uses[orig]
+				if o == nil {
+					o = info.Defs[orig]
+				}
+				if a, ok := argOf[o]; ok {
+					alias[cp] = a
+				}
+			})
+		}
+		var out []ast.Stmt
+		for _, hs := range hd.Body.List[:last] {
+			out = append(out, copyOf(hs).(ast.Stmt))
+		}
+		return append(out, &ast.AssignStmt{Lhs: as.Lhs, Tok: as.Tok, Rhs: []ast.Expr{copyOf(ret.Results[0]).(ast.Expr)}})
+	}
+	spliceList := func(list *[]ast.Stmt) {
+		var out []ast.Stmt
+		changed := false
+		for _, st := range *list {
+			if repl := inlinable(st); repl != nil {
+				out = append(out, repl...)
+				changed = true
+			} else {
+				out = append(out, st)
+			}
+		}
+		if changed {
+			undo = append(undo, saved{list, *list})
+			*list = out
+		}
+	}
+	ast.Inspect(n, func(x ast.Node) bool {
+		switch b := x.(type) {
+		case *ast.BlockStmt:
+			spliceList(&b.List)
+		case *ast.CaseClause:
+			spliceList(&b.Body)
+		case *ast.CommClause:
+			spliceList(&b.Body)
+		}
+		return true
+	})
+	// ---- positional names
+	names := map[types.Object]string{}
+	local := func(o types.Object) bool {
+		return o != nil && o.Pos().IsValid() && o.Parent() != nil && o.Parent() != pk.Types.Scope() && o.Parent() != types.Universe
+	}
+	old := map[*ast.Ident]string{}
+	var nameOf func(id *ast.Ident, depth int) (string, bool)
+	nameOf = func(id *ast.Ident, depth int) (string, bool) {
+		if a, ok := alias[id]; ok && depth < 4 {
+			switch y := a.(type) {
+			case *ast.Ident:
+				if s, ok := nameOf(y, depth+1); ok {
+					return s, true
+				}
+				return y.Name, true
+			case *ast.BasicLit:
+				return y.Value, true
+			default:
+				return types.ExprString(a), true
+			}
+		}
+		if o, ok := origOf[id]; ok {
+			id = o
+		}
+		o := info.Defs[id]
+		if o == nil {
+			o = info.Uses[id]
+		}
+		if fn, isFn := o.(*types.Func); isFn {
+			if old := core.RecordedName(fn); old != fn.Name() {
+				return old, true
+			}
+			return "", false
+		}
+		if _, isVar := o.(*types.Var); !isVar {
+			if _, isLabel := o.(*types.Label); !isLabel {
+				return "", false
+			}
+		}
+		if v, ok := o.(*types.Var); ok && v.IsField() {
+			return "", false
+		}
+		if !local(o) {
+			return "", false
+		}
+		if _, seen := names[o]; !seen {
+			names[o] = fmt.Sprintf("v%d", len(names))
+		}
+		return names[o], true
+	}
+	ast.Inspect(n, func(x ast.Node) bool { // numbered by first appearance in what is printed
+		id, ok := x.(*ast.Ident)
+		if !ok || id.Name == "_" {
+			return true
+		}
+		if nm, ok := nameOf(id, 0); ok {
+			if _, done := old[id]; !done {
+				old[id] = id.Name
+			}
+			id.Name = nm
+		}
+		return true
+	})
+	var b bytes.Buffer
+	(&printer.Config{Mode: printer.RawFormat}).Fprint(&b, token.NewFileSet(), n)
+	for id, nm := range old {
+		id.Name = nm
+	}
+	for i := len(undo) - 1; i >= 0; i-- {
+		*undo[i].list = undo[i].orig
+	}
+	// ---- token sequence
+	var sc scanner.Scanner
+	fset := token.NewFileSet()
+	src := b.Bytes()
+	sc.Init(fset.AddFile("", fset.Base(), len(src)), src, nil, 0)
+	var toks []string
+	for {
+		_, tok, lit := sc.Scan()
+		if tok == token.EOF {
+			break
+		}
+		switch {
+		case tok == token.SEMICOLON:
+			// automatic and explicit semicolons alike; one before a closing brace is layout
+			toks = append(toks, ";")
+		case lit != "":
+			toks = append(toks, lit)
+		default:
+			toks = append(toks, tok.String())
+		}
+	}
+	// `; }` and `}` are the same program
+	var out []string
+	for i, t := range toks {
+		if t == ";" && i+1 < len(toks) && (toks[i+1] == "}" || toks[i+1] == ")") {
+			continue
+		}
+		if t == ";" && len(out) > 0 && out[len(out)-1] == ";" {
+			continue
+		}
+		out = append(out, t)
+	}
+	for len(out) > 0 && out[len(out)-1] == ";" {
+		out = out[:len(out)-1]
+	}
+	return strings.Join(out, " ")
+}
+
 // VerbatimCopy (R-CONST/copy): a function the repository declares to be a
 // copy of a library function (because the original is unexported) is compared,
 // on every run, with the original as loaded from the module cache: same
-// parameters, results and body, ignoring comments, positions and layout. The
+// parameters, results and body, ignoring comments, positions, layout and the
+// names of parameters and locals. The
 // correctness argument for such a function is "it is the library's"; any
 // divergence voids it.
 func VerbatimCopy(r *core.Run, rel, fn, upstreamPkg, upstreamFn string) {
 	r.Rule("R-CONST/copy", "a function kept as a verbatim copy of an unexported library function has the same signature and body as the original in the module cache (compared as syntax trees printed without comments); the library's behaviour is then the copy's behaviour")
-	fd, _ := r.P.FuncDecl(rel, fn)
+	fd, pk := r.P.FuncDecl(rel, fn)
 	o := r.Add("R-CONST/copy", fmt.Sprintf("%s.%s ≡ %s.%s", rel, fn, upstreamPkg, upstreamFn), token.NoPos, "verbatim copy of "+upstreamPkg+"."+upstreamFn)
 	if fd == nil {
 		r.Fatal("anchor: %s.%s not found", rel, fn)
@@ -42,32 +278,19 @@ func VerbatimCopy(r *core.Run, rel, fn, upstreamPkg, upstreamFn string) {
 		r.Fatal("anchor: %s.%s not found upstream", upstreamPkg, upstreamFn)
 		return
 	}
-	render := func(d *ast.FuncDecl) string {
+	render := func(p *packages.Package, d *ast.FuncDecl) string {
 		c := *d
 		c.Doc = nil
 		c.Name = ast.NewIdent("f")
-		var b bytes.Buffer
 		// comments are not attached to the node itself, so printing the node alone drops them
-		(&printer.Config{Mode: printer.RawFormat}).Fprint(&b, token.NewFileSet(), &c)
-		return b.String()
+		return canon(p, d, &c)
 	}
-	a, b := render(fd), render(ufd)
+	a, b := render(pk, fd), render(up, ufd)
 	if a == b {
 		o.Auto("identical to the original (%d bytes of canonical syntax)", len(a))
 		return
 	}
-	// first differing line, for the report
-	la, lb := bytes.Split([]byte(a), []byte("\n")), bytes.Split([]byte(b), []byte("\n"))
-	diff := ""
-	for i := 0; i < len(la) && i < len(lb); i++ {
-		if !bytes.Equal(la[i], lb[i]) {
-			diff = fmt.Sprintf("copy: %q / original: %q", bytes.TrimSpace(la[i]), bytes.TrimSpace(lb[i]))
-			break
-		}
-	}
-	if diff == "" {
-		diff = fmt.Sprintf("%d vs %d lines", len(la), len(lb))
-	}
+	diff := firstDiff(a, b)
 	o.Fail("the copy differs from the library original (%s): its behaviour is no longer vouched for by the library", diff)
 }
 
@@ -79,7 +302,7 @@ func VerbatimCopy(r *core.Run, rel, fn, upstreamPkg, upstreamFn string) {
 // are not compared.
 func VerbatimLoop(r *core.Run, rel, fn, upstreamPkg, upstreamFn string) {
 	r.Rule("R-CONST/copy", "a function kept as a verbatim copy of an unexported library function has the same signature and body as the original in the module cache (compared as syntax trees printed without comments); the library's behaviour is then the copy's behaviour")
-	fd, _ := r.P.FuncDecl(rel, fn)
+	fd, pk := r.P.FuncDecl(rel, fn)
 	o := r.Add("R-CONST/copy", fmt.Sprintf("%s.%s loop ≡ %s.%s loop", rel, fn, upstreamPkg, upstreamFn), token.NoPos, "main loop adapted verbatim from "+upstreamPkg+"."+upstreamFn)
 	if fd == nil {
 		r.Fatal("anchor: %s.%s not found", rel, fn)
@@ -103,14 +326,12 @@ func VerbatimLoop(r *core.Run, rel, fn, upstreamPkg, upstreamFn string) {
 		r.Fatal("anchor: %s.%s not found upstream", upstreamPkg, upstreamFn)
 		return
 	}
-	loop := func(d *ast.FuncDecl) string {
+	loop := func(p *packages.Package, d *ast.FuncDecl) string {
 		var out []string
 		for _, s := range d.Body.List {
 			switch s.(type) {
 			case *ast.ForStmt, *ast.RangeStmt:
-				var b bytes.Buffer
-				(&printer.Config{Mode: printer.RawFormat}).Fprint(&b, token.NewFileSet(), s)
-				out = append(out, b.String())
+				out = append(out, canon(p, d, s))
 			}
 		}
 		if len(out) != 1 {
@@ -118,7 +339,7 @@ func VerbatimLoop(r *core.Run, rel, fn, upstreamPkg, upstreamFn string) {
 		}
 		return out[0]
 	}
-	a, b := loop(fd), loop(ufd)
+	a, b := loop(pk, fd), loop(up, ufd)
 	switch {
 	case b == "":
 		r.Fatal("anchor: %s.%s has no single top-level loop", upstreamPkg, upstreamFn)
@@ -127,14 +348,80 @@ func VerbatimLoop(r *core.Run, rel, fn, upstreamPkg, upstreamFn string) {
 	case a == b:
 		o.Auto("loop identical to the original's (%d bytes of canonical syntax)", len(a))
 	default:
-		la, lb := bytes.Split([]byte(a), []byte("\n")), bytes.Split([]byte(b), []byte("\n"))
-		diff := fmt.Sprintf("%d vs %d lines", len(la), len(lb))
-		for i := 0; i < len(la) && i < len(lb); i++ {
-			if !bytes.Equal(la[i], lb[i]) {
-				diff = fmt.Sprintf("copy: %q / original: %q", bytes.TrimSpace(la[i]), bytes.TrimSpace(lb[i]))
-				break
-			}
-		}
+		diff := firstDiff(a, b)
 		o.Fail("the adapted loop differs from the library original (%s): its behaviour is no longer vouched for by the library", diff)
 	}
+}
+
+// firstDiff names the first statement-sized piece in which two canonical token
+// sequences differ.
+func firstDiff(a, b string) string {
+	split := func(s string) []string {
+		return strings.FieldsFunc(strings.NewReplacer(" ; ", "\x00", " { ", " {\x00", " } ", "\x00} ").Replace(s), func(r rune) bool { return r == 0 })
+	}
+	la, lb := split(a), split(b)
+	for i := 0; i < len(la) && i < len(lb); i++ {
+		if la[i] != lb[i] {
+			return fmt.Sprintf("copy: %q / original: %q", strings.TrimSpace(la[i]), strings.TrimSpace(lb[i]))
+		}
+	}
+	return fmt.Sprintf("%d vs %d statements", len(la), len(lb))
+}
+
+// cloneAST makes a deep copy of a syntax tree (go/ast nodes only; positions are
+// kept, resolution objects dropped) and reports every identifier copied.
+func cloneAST(n ast.Node, ident func(orig, cp *ast.Ident)) ast.Node {
+	var clone func(v reflect.Value) reflect.Value
+	clone = func(v reflect.Value) reflect.Value {
+		switch v.Kind() {
+		case reflect.Interface:
+			if v.IsNil() {
+				return v
+			}
+			c := clone(v.Elem())
+			out := reflect.New(v.Type()).Elem()
+			out.Set(c)
+			return out
+		case reflect.Ptr:
+			if v.IsNil() {
+				return v
+			}
+			switch v.Interface().(type) {
+			case *ast.Object, *ast.Scope:
+				return reflect.Zero(v.Type())
+			}
+			if v.Elem().Kind() != reflect.Struct {
+				return v
+			}
+			cp := reflect.New(v.Elem().Type())
+			for i := 0; i < v.Elem().NumField(); i++ {
+				if cp.Elem().Field(i).CanSet() {
+					cp.Elem().Field(i).Set(clone(v.Elem().Field(i)))
+				}
+			}
+			if id, ok := v.Interface().(*ast.Ident); ok {
+				ident(id, cp.Interface().(*ast.Ident))
+			}
+			return cp
+		case reflect.Slice:
+			if v.IsNil() {
+				return v
+			}
+			cp := reflect.MakeSlice(v.Type(), v.Len(), v.Len())
+			for i := 0; i < v.Len(); i++ {
+				cp.Index(i).Set(clone(v.Index(i)))
+			}
+			return cp
+		case reflect.Struct:
+			cp := reflect.New(v.Type()).Elem()
+			for i := 0; i < v.NumField(); i++ {
+				if cp.Field(i).CanSet() {
+					cp.Field(i).Set(clone(v.Field(i)))
+				}
+			}
+			return cp
+		}
+		return v
+	}
+	return clone(reflect.ValueOf(n)).Interface().(ast.Node)
 }
